@@ -52,19 +52,17 @@ Record mw := mkmw {
   depth : nat;
   mps : list mpw;           (* multiPartWriter[0..depth-1] *)
   pw : option nat;          (* partWriter: Some i = current part of writer i, None = nil *)
-  rbs : list bytes;         (* oracle: the random boundaries multipart.NewWriter will draw *)
   hcount : nat;             (* msg.headerCount contribution of this render *)
   panicked : bool
 }.
 
-Definition set_snk st k n e := mkmw k (bw st + n) e (depth st) (mps st) (pw st) (rbs st) (hcount st) (panicked st).
-Definition set_err st e := mkmw (snk st) (bw st) e (depth st) (mps st) (pw st) (rbs st) (hcount st) (panicked st).
-Definition set_depth st d := mkmw (snk st) (bw st) (err st) d (mps st) (pw st) (rbs st) (hcount st) (panicked st).
-Definition set_mps st l := mkmw (snk st) (bw st) (err st) (depth st) l (pw st) (rbs st) (hcount st) (panicked st).
-Definition set_pw st p := mkmw (snk st) (bw st) (err st) (depth st) (mps st) p (rbs st) (hcount st) (panicked st).
-Definition set_rbs st r := mkmw (snk st) (bw st) (err st) (depth st) (mps st) (pw st) r (hcount st) (panicked st).
-Definition add_hcount st n := mkmw (snk st) (bw st) (err st) (depth st) (mps st) (pw st) (rbs st) (hcount st + n) (panicked st).
-Definition set_panic st := mkmw (snk st) (bw st) (err st) (depth st) (mps st) (pw st) (rbs st) (hcount st) true.
+Definition set_snk st k n e := mkmw k (bw st + n) e (depth st) (mps st) (pw st) (hcount st) (panicked st).
+Definition set_err st e := mkmw (snk st) (bw st) e (depth st) (mps st) (pw st) (hcount st) (panicked st).
+Definition set_depth st d := mkmw (snk st) (bw st) (err st) d (mps st) (pw st) (hcount st) (panicked st).
+Definition set_mps st l := mkmw (snk st) (bw st) (err st) (depth st) l (pw st) (hcount st) (panicked st).
+Definition set_pw st p := mkmw (snk st) (bw st) (err st) (depth st) (mps st) p (hcount st) (panicked st).
+Definition add_hcount st n := mkmw (snk st) (bw st) (err st) (depth st) (mps st) (pw st) (hcount st + n) (panicked st).
+Definition set_panic st := mkmw (snk st) (bw st) (err st) (depth st) (mps st) (pw st) (hcount st) true.
 
 (* sequencing that stops at a panic *)
 Definition andthen (st : mw) (f : mw -> mw) : mw := if panicked st then st else f st.
@@ -193,22 +191,25 @@ Fixpoint boundary_chars_ok (s : bytes) : bool :=
 Definition boundary_valid (s : bytes) : bool :=
   Nat.leb 1 (length s) && Nat.leb (length s) 70 && boundary_chars_ok s.
 
-(* msgWriter.startMP; returns the boundary in use *)
-Definition start_mp (mime : bytes) (bnd : bytes) (st : mw) : mw * bytes :=
-  let rb := hd [] (rbs st) in
-  let st0 := set_rbs st (tl (rbs st)) in
-  (* SetBoundary: after the fix an error is recorded, a success leaves mw.err alone *)
-  let '(b, st1) := match bnd with
-                   | [] => (rb, st0)
-                   | _ => if boundary_valid bnd then (bnd, st0) else (rb, set_err st0 true)
-                   end in
+(* which boundary startMP ends up with: the cached one if SetBoundary accepts it, otherwise the
+   random one multipart.NewWriter drew; the flag says that SetBoundary returned an error *)
+Definition pick_boundary (cached rb : bytes) : bytes * bool :=
+  match cached with
+  | [] => (rb, false)
+  | _ => if boundary_valid cached then (cached, false) else (rb, true)
+  end.
+
+(* msgWriter.startMP with the boundary already resolved *)
+Definition start_mp (mime : bytes) (b : bytes) (bad : bool) (st : mw) : mw :=
+  (* after the fix a SetBoundary error is recorded, a success leaves mw.err alone *)
+  let st1 := if bad then set_err st true else st in
   let ctype := bs "multipart/" ++ mime ++ bs ";" ++ crlf ++ bs " boundary=" ++ b in
   let w := mkmpw b None in
   let st2 := set_mps st1 (firstn (depth st1) (mps st1) ++ [w]) in
   let st3 := if Nat.eqb (depth st2) 0
              then write_string (bs "Content-Type: " ++ ctype) st2
              else new_part [(bs "Content-Type", [ctype])] st2 in
-  (if panicked st3 then st3 else set_depth st3 (S (depth st3)), b).
+  if panicked st3 then st3 else set_depth st3 (S (depth st3)).
 
 (* msgWriter.stopMP *)
 Definition stop_mp (st : mw) : mw :=
@@ -236,7 +237,7 @@ Definition write_body (p : producer) (e : enc) (st : mw) : mw :=
       if Nat.eqb (depth st1) 0 then
         (* io.Copy straight into mw.writer; the count is added by hand *)
         let '(k, n, e2) := sink_write (snk st1) buf in
-        mkmw k (bw st1 + n) (err st1 || e2) (depth st1) (mps st1) (pw st1) (rbs st1) (hcount st1) (panicked st1)
+        mkmw k (bw st1 + n) (err st1 || e2) (depth st1) (mps st1) (pw st1) (hcount st1) (panicked st1)
       else
         match pw st1 with
         | None => set_panic st1                 (* nil io.Writer *)
@@ -303,41 +304,33 @@ Definition h_cid := bs "Content-Id".      (* textproto canonical form of Content
 Definition get_h (k : bytes) (h : list (bytes * bytes)) : option bytes :=
   match lookup k h with Some [] => None | x => x end.
 
+(* "if _, ok := file.getHeader(k); !ok { file.setHeader(k, v) }" *)
+Definition ensure (k v : bytes) (h : list (bytes * bytes)) : list (bytes * bytes) :=
+  match get_h k h with Some _ => h | None => set_kv k v h end.
+
+(* the body encoding addFiles uses (after the fix: taken from the cached header when present) *)
+Definition file_enc (f : file) (h1 : list (bytes * bytes)) : enc :=
+  match get_h h_cte h1 with
+  | Some v => enc_of_name v
+  | None => match f_enc f with Some e => e | None => EncB64 end
+  end.
+
 (* the header synthesis of addFiles for one file, on the header cache; returns the filled
    cache and the encoding used for the body *)
 Definition file_hdrs (wenc : N) (is_attachment : bool) (f : file) : list (bytes * bytes) * enc :=
   let quoted := bs """" in
   let encname := word_encode wenc (sanitize (f_name f)) in
-  let h0 := f_hdr f in
-  let h1 := match get_h h_ctype h0 with
-            | Some _ => h0
-            | None => set_kv h_ctype (f_mime f ++ bs "; name=" ++ quoted ++ encname ++ quoted) h0
-            end in
-  let e := match get_h h_cte h1 with
-           | Some v => enc_of_name v
-           | None => match f_enc f with Some e => e | None => EncB64 end
-           end in
-  let h2 := match get_h h_cte h1 with
-            | Some _ => h1
-            | None => set_kv h_cte (enc_name e) h1
-            end in
+  let h1 := ensure h_ctype (f_mime f ++ bs "; name=" ++ quoted ++ encname ++ quoted) (f_hdr f) in
+  let e := file_enc f h1 in
+  let h2 := ensure h_cte (enc_name e) h1 in
   let h3 := match f_desc f with
             | [] => h2
-            | d => match get_h h_cdesc h2 with
-                   | Some _ => h2
-                   | None => set_kv h_cdesc (word_encode wenc d) h2
-                   end
+            | d => ensure h_cdesc (word_encode wenc d) h2
             end in
-  let h4 := match get_h h_cdisp h3 with
-            | Some _ => h3
-            | None => set_kv h_cdisp ((if is_attachment then bs "attachment" else bs "inline")
-                                      ++ bs "; filename=" ++ quoted ++ encname ++ quoted) h3
-            end in
+  let h4 := ensure h_cdisp ((if is_attachment then bs "attachment" else bs "inline")
+                            ++ bs "; filename=" ++ quoted ++ encname ++ quoted) h3 in
   let h5 := if is_attachment then h4
-            else match get_h h_cid h4 with
-                 | Some _ => h4
-                 | None => set_kv h_cid (bs "<" ++ sanitize (f_name f) ++ bs ">") h4
-                 end in
+            else ensure h_cid (bs "<" ++ sanitize (f_name f) ++ bs ">") h4 in
   (h5, e).
 
 Definition with_hdr (f : file) (h : list (bytes * bytes)) : file :=
@@ -346,22 +339,20 @@ Definition with_hdr (f : file) (h : list (bytes * bytes)) : file :=
 Definition file_headers (wenc : N) (is_attachment : bool) (f : file) : file * enc :=
   (with_hdr f (fst (file_hdrs wenc is_attachment f)), snd (file_hdrs wenc is_attachment f)).
 
-(* msgWriter.addFiles *)
-Fixpoint add_files (wenc : N) (is_attachment : bool) (files : list file) (st : mw) : mw * list file :=
+(* msgWriter.addFiles over files whose headers are already synthesised (file, body encoding) *)
+Fixpoint add_files (files : list (file * enc)) (st : mw) : mw :=
   match files with
-  | [] => (st, [])
-  | f :: rest =>
-      if panicked st then (st, files)
+  | [] => st
+  | (f', e) :: rest =>
+      if panicked st then st
       else
-        let '(f', e) := file_headers wenc is_attachment f in
         let hdrs := map (fun kv => (fst kv, [snd kv])) (f_hdr f') in
         let st1 := if Nat.eqb (depth st) 0
                    then write_string crlf
                           (fold_left (fun s kv => write_header_uncounted (fst kv) (snd kv) s) (sort_kv hdrs) st)
                    else new_part hdrs st in
         let st2 := if err st1 then st1 else st1 |> write_body (f_prod f') e in
-        let '(st3, rest') := add_files wenc is_attachment rest st2 in
-        (st3, f' :: rest')
+        add_files rest st2
   end.
 
 (* msgWriter.writePart *)
@@ -403,13 +394,36 @@ Definition with_gen (m : msg) (g : list (bytes * list bytes)) : msg :=
 
 Definition count_nl (s : bytes) : nat := count_crlf s.
 
+(* ---------- resolution: everything writeMsg derives from the Msg and caches in it ---------- *)
+Record rmsg := mkrmsg {
+  z_msg : msg;                  (* the Msg as it is after the render: defaults, file header caches, boundaries *)
+  z_embeds : list (file * enc);
+  z_attach : list (file * enc);
+  z_bad_mixed : bool; z_bad_related : bool; z_bad_alt : bool   (* SetBoundary rejected the cached boundary *)
+}.
+
+Definition nth_rb (n : nat) (rb : list bytes) : bytes := nth n rb [].
+
+Definition resolve (date msgid : bytes) (rb : list bytes) (m : msg) : rmsg :=
+  let gen := add_defaults date msgid m in
+  let i_rel := if has_mixed m then 1 else 0 in
+  let i_alt := i_rel + (if has_related m then 1 else 0) in
+  let '(bm, badm) := if has_mixed m then pick_boundary (m_bmixed m) (nth_rb 0 rb) else (m_bmixed m, false) in
+  let '(br, badr) := if has_related m then pick_boundary (m_brelated m) (nth_rb i_rel rb) else (m_brelated m, false) in
+  let '(ba, bada) := if has_alt m then pick_boundary (m_balt m) (nth_rb i_alt rb) else (m_balt m, false) in
+  let embeds := map (file_headers (m_wenc m) false) (m_embeds m) in
+  let attach := map (file_headers (m_wenc m) true) (m_attach m) in
+  mkrmsg (mkmsg (m_charset m) (m_wenc m) gen (m_preform m) (m_from m) (m_addr m) (m_parts m)
+                (map fst embeds) (map fst attach) bm br ba)
+         embeds attach badm badr bada.
+
 (* one "if msg.hasX() { boundary = startMP(...); if mw.depth == 1 { writeString(DoubleNewLine) } }" block *)
-Definition open_mp (c : bool) (mime cached : bytes) (st : mw) : mw * bytes :=
+Definition open_mp (c : bool) (mime b : bytes) (bad : bool) (st : mw) : mw :=
   if c then
-    if panicked st then (st, cached)
-    else let '(s, b) := start_mp mime cached st in
-         ((if Nat.eqb (depth s) 1 then s |> write_string Gen.double_newline else s), b)
-  else (st, cached).
+    if panicked st then st
+    else let s := start_mp mime b bad st in
+         if Nat.eqb (depth s) 1 then s |> write_string Gen.double_newline else s
+  else st.
 
 Definition close_mp (c : bool) (st : mw) : mw := if c then st |> stop_mp else st.
 
@@ -435,31 +449,33 @@ Definition write_addr_headers (m : msg) (st : mw) : mw :=
 Definition write_parts (m : msg) (st : mw) : mw :=
   fold_left (fun s p => s |> write_part (m_charset m) p) (m_parts m) st.
 
-Definition add_files_safe (wenc : N) (att : bool) (files : list file) (st : mw) : mw * list file :=
-  if panicked st then (st, files) else add_files wenc att files st.
+Definition add_files_safe (files : list (file * enc)) (st : mw) : mw :=
+  if panicked st then st else add_files files st.
 
-(* msgWriter.writeMsg without S/MIME; returns the writer state and the message with its caches *)
-Definition write_msg (date msgid : bytes) (m : msg) (st : mw) : mw * msg :=
-  let gen := add_defaults date msgid m in
-  let st4 := write_addr_headers m (write_preformatted (m_preform m) (write_gen_headers gen st)) in
-  let '(st5, bm) := open_mp (has_mixed m) Gen.mime_mixed (m_bmixed m) st4 in
-  let '(st6, br) := open_mp (has_related m) Gen.mime_related (m_brelated m) st5 in
-  let '(st7, ba) := open_mp (has_alt m) Gen.mime_alternative (m_balt m) st6 in
+(* msgWriter.writeMsg (without S/MIME) on the resolved message *)
+Definition write_resolved (z : rmsg) (st : mw) : mw :=
+  let m := z_msg z in
+  let st4 := write_addr_headers m (write_preformatted (m_preform m) (write_gen_headers (m_gen m) st)) in
+  let st5 := open_mp (has_mixed m) Gen.mime_mixed (m_bmixed m) (z_bad_mixed z) st4 in
+  let st6 := open_mp (has_related m) Gen.mime_related (m_brelated m) (z_bad_related z) st5 in
+  let st7 := open_mp (has_alt m) Gen.mime_alternative (m_balt m) (z_bad_alt z) st6 in
   let st9 := close_mp (has_alt m) (write_parts m st7) in
-  let '(st10, embeds') := add_files_safe (m_wenc m) false (m_embeds m) st9 in
+  let st10 := add_files_safe (z_embeds z) st9 in
   let st11 := close_mp (has_related m) st10 in
-  let '(st12, attach') := add_files_safe (m_wenc m) true (m_attach m) st11 in
-  let st13 := close_mp (has_mixed m) st12 in
-  (st13, mkmsg (m_charset m) (m_wenc m) gen (m_preform m) (m_from m) (m_addr m) (m_parts m)
-               embeds' attach' bm br ba).
+  let st12 := add_files_safe (z_attach z) st11 in
+  close_mp (has_mixed m) st12.
 
-Definition mw_init (k : sink) (rb : list bytes) : mw := mkmw k 0 false 0 [] None rb 0 false.
+Definition write_msg (date msgid : bytes) (rb : list bytes) (m : msg) (st : mw) : mw * msg :=
+  let z := resolve date msgid rb m in
+  (write_resolved z st, z_msg z).
+
+Definition mw_init (k : sink) : mw := mkmw k 0 false 0 [] None 0 false.
 
 (* Msg.WriteTo (no S/MIME, no middleware): bytes accepted, returned count, error, panic, new message *)
 Record result := mkres { r_out : bytes; r_n : nat; r_err : bool; r_panic : bool; r_msg : msg; r_hcount : nat }.
 
 Definition write_to (date msgid : bytes) (rb : list bytes) (m : msg) (k : sink) : result :=
-  let '(st, m') := write_msg date msgid m (mw_init k rb) in
+  let '(st, m') := write_msg date msgid rb m (mw_init k) in
   mkres (accepted (snk st)) (bw st) (err st) (panicked st) m' (hcount st).
 
 Definition unlimited : sink := mksink None false false [].
